@@ -570,7 +570,7 @@ class Analysis:
                 continue
             if k[0] in ("iv", "old"):
                 out[k] = hull(v, w)
-            elif k[0] in ("ver", "pb"):
+            elif k[0] in ("ver", "pb", "cp"):
                 if v == w:
                     out[k] = v
             elif k[0] == "or":
@@ -977,6 +977,8 @@ class Analysis:
                     d = self.eval(st, e["c"][1])
                     return self._ptr_adjust(st, pn, d if e["op"] == "+=" else neg(d))
             st2 = self._store(st, e["c"][0], self.eval(st, i), e, eid=i)
+            if e["op"] == "=" and st2 is not None:
+                st2 = self._note_copy(st2, e["c"][0], e["c"][1])
             return self._or_update(st, st2, e)
         if k == "un" and e["op"] in ("++", "--") and self._ptr_local(e["c"][0]) is not None:
             return self._ptr_adjust(st, self._ptr_local(e["c"][0]), (1, 1) if e["op"] == "++" else (-1, -1))
@@ -1004,6 +1006,7 @@ class Analysis:
                     if iv != (None, None):
                         st = dict(st)
                         st[key] = iv
+                    st = self._note_copy(st, None, v["init"], name=v["name"])
                 elif "init" in v:
                     st = self._ptr_assign(st, v["name"], v["init"])
             return st
@@ -1015,6 +1018,42 @@ class Analysis:
             if e.get("noret"):
                 return None
             return st
+        return st
+
+    def _note_copy(self, st, lhs, rhs, name=None):
+        """`local = <tracked lvalue>`: remember that the local holds a copy, so that a later test of either refines
+        both (`result = p->strict; if (p->strict < lo) result = lo; ...`).  The note mentions both sides and is
+        killed with either."""
+        f = self.f
+        if name is None:
+            l = ex.skip(f, lhs)
+            le = f.exprs[l]
+            if not (le["k"] == "ref" and le.get("dk") in ("local", "param") and le.get("it") and le["name"] not in self.taken):
+                return st
+            name = le["name"]
+        r = ex.skip(f, rhs)
+        re_ = f.exprs[r]
+        while re_["k"] == "cast" and re_.get("ck") in ("LValueToRValue", "NoOp", "IntegralCast"):
+            if re_.get("ck") == "IntegralCast" and not ex._same_or_wider(f, re_):
+                return st
+            r = ex.skip(f, re_["c"][0])
+            re_ = f.exprs[r]
+        if re_["k"] not in ("mem", "ref", "idx"):
+            return st
+        k2 = self.track_key(r, st)
+        if k2 is None or k2 == ("iv", name) or k2 not in self.keyinfo:
+            return st
+        ck = ("cp", name)
+        src = self.keyinfo[k2]
+        mm = _MentionsTR()
+        mm.refs = set(src.refs) | {name}
+        mm.fields, mm.derefs, mm.recs, mm.nonlocal_ = set(src.fields), set(src.derefs), set(src.recs), src.nonlocal_
+        mm.trange = None
+        self.keyinfo[(ck, k2)] = mm
+        st = dict(st)
+        st[ck] = k2
+        if ck not in self.keyinfo or True:
+            self.keyinfo[ck] = mm
         return st
 
     def _kill_local_out_args(self, st, e):
@@ -1620,6 +1659,26 @@ class Analysis:
             out[kb] = meet(cur, nv) if cur else nv
             if is_empty(out[kb]):
                 return None
+        # copies: what was learnt about one side of `local = lvalue` holds for the other
+        if out is not st:
+            for kk in (ka, kb):
+                if kk is None or kk not in out or out[kk] == st.get(kk):
+                    continue
+                for ck, src in list(out.items()):
+                    if ck[0] != "cp":
+                        continue
+                    other = None
+                    if src == kk:
+                        other = ("iv", ck[1])
+                    elif kk == ("iv", ck[1]):
+                        other = src
+                    if other is None:
+                        continue
+                    cur = out.get(other)
+                    nv = meet(cur, out[kk]) if cur else out[kk]
+                    if is_empty(nv):
+                        return None
+                    out[other] = nv
         return out
 
 
